@@ -173,3 +173,14 @@ package rlp
 //@   opt assumecallreqs
 //@   ensures [oneByteStringMustNeedItsHeader] err == nil && result(Stream.Kind, 0) == String && result(Stream.Kind, 1) == 1 ==> len(b) == 1 && b[0] >= 128
 //@   ensures [stringFillsTheWholeBuffer] err == nil && result(Stream.Kind, 0) == String ==> len(b) == result(Stream.Kind, 1) && called(Stream.readFull)
+
+// AppendUint64 appends the canonical encoding: the header for the integer's byte length followed by its
+// big-endian bytes, each byte the right one (stated for the widths up to six bytes, which cover every
+// height, nonce, gas amount and millisecond timestamp).
+//@ aspect func AppendUint64(b []byte, i uint64) (r []byte)
+//@   for C16
+//@   modifies *
+//@   ensures [lengthGrowsByTheEncodingSize] len(r) == len(b) + ite(i < 128, 1, 1 + isz(i))
+//@   ensures [sixByteValuesBigEndian] 1099511627776 <= i && i < 281474976710656 ==> r[len(b)] == 134 && r[len(b) + 1] == (i / 1099511627776) % 256 && r[len(b) + 2] == (i / 4294967296) % 256 && r[len(b) + 3] == (i / 16777216) % 256 && r[len(b) + 4] == (i / 65536) % 256 && r[len(b) + 5] == (i / 256) % 256 && r[len(b) + 6] == i % 256
+//@   ensures [fiveByteValuesBigEndian] 4294967296 <= i && i < 1099511627776 ==> r[len(b)] == 133 && r[len(b) + 1] == (i / 4294967296) % 256 && r[len(b) + 2] == (i / 16777216) % 256 && r[len(b) + 3] == (i / 65536) % 256 && r[len(b) + 4] == (i / 256) % 256 && r[len(b) + 5] == i % 256
+//@   ensures [fourByteValuesBigEndian] 16777216 <= i && i < 4294967296 ==> r[len(b)] == 132 && r[len(b) + 1] == (i / 16777216) % 256 && r[len(b) + 2] == (i / 65536) % 256 && r[len(b) + 3] == (i / 256) % 256 && r[len(b) + 4] == i % 256
